@@ -708,13 +708,14 @@ impl Check for C08 {
             Workload { name: "fixed-header-forms", quick: 256, thorough: 256 },
             Workload { name: "generative-post", quick: 6000, thorough: 600_000 },
             Workload { name: "generative-pre", quick: 2000, thorough: 200_000 },
+            Workload { name: "remaining-length-classes", quick: 36, thorough: 36 },
         ]
     }
     fn min_nontrivial(&self, tier: Tier) -> usize {
         if tier == Tier::Quick { 500 } else { 5000 }
     }
     fn required_counters(&self) -> Vec<&'static str> {
-        vec!["mustaccept_frames", "mustreject_frames", "bad_headers", "publishes_delivered_verbatim", "acks_matching_inflight", "connacks_accepted_verbatim", "exhaustive_inputs", "exact_fit_mustaccept_frames", "connects_after_refused_handshake"]
+        vec!["mustaccept_frames", "mustreject_frames", "bad_headers", "publishes_delivered_verbatim", "acks_matching_inflight", "connacks_accepted_verbatim", "exhaustive_inputs", "exact_fit_mustaccept_frames", "connects_after_refused_handshake", "length_class_boundary_frames"]
     }
     fn exhaustive(&self) -> bool {
         true
@@ -819,6 +820,25 @@ impl Check for C08 {
                     out.count("exhaustive_inputs", 1);
                     one_post(&s, Chunk::All, true, &mut out, "post");
                     one_pre(&s, Chunk::All, &mut out);
+                }
+            }
+            5 => {
+                // a PUBLISH whose remaining length sits on either side of each length-class boundary
+                // (one, two, three and four length bytes), in a receive buffer that it fits
+                // exactly, amply, or misses by one byte
+                let ls = [127usize, 128, 16_383, 16_384, 2_097_151, 2_097_152];
+                let l = ls[(index % 6) as usize];
+                let fit = (index / 6) % 3;
+                let qos = ((index / 18) % 2) as u8;
+                let head = 2 + 1 + if qos > 0 { 2 } else { 0 } + 1;
+                let p = SPacket::Publish { dup: false, qos, retain: false, topic: "t".into(), pid: if qos > 0 { Some(9) } else { None }, props: vec![], payload: (0..l - head).map(|i| (i * 7 + 3) as u8).collect() };
+                let bytes = rc::encode_server(&p);
+                let nlen = bytes.len() - 1 - l;
+                out.key(format!("remaining-length/{}-byte-form/{}", nlen, ["exact-fit", "ample", "one-short"][fit as usize]));
+                RX_CELL.with(|c| c.set(match fit { 0 => bytes.len(), 1 => bytes.len() + 100, _ => bytes.len() - 1 }));
+                out.count("length_class_boundary_frames", 1);
+                for chunk in [Chunk::All, Chunk::Fixed(if l > 100_000 { 50_000 } else { 100 })] {
+                    one_post(&bytes, chunk, false, &mut out, "post");
                 }
             }
             3 => {
